@@ -15,6 +15,7 @@ TECHNIQUE = (
     "all strings <= n over a hostile character alphabet and all fragment sequences <= k over hostile fragments, "
     "x 3 tokenizers x {plain, remove_ambiguous} x 3 span kinds x 3 tag modes; with the default tokenizer also as a markup document"
 )
+TECHNIQUE += "; " + 'also: every citation head x every sequence of post-citation fragments, every example citation of reporters-db in full / short / id. form with boundary years, texts with > 4,300-digit numbers'
 RULE = (
     "chars: every string of length <= n over the 14-character hostile alphabet; frags: every concatenation of <= k "
     "fragments of the hostile fragment alphabet A4, joined with '' and with ' '; post: every citation head x every sequence of <= 2 (quick) / 3 "
